@@ -680,11 +680,11 @@ func run(c *lib.Ctx, cs caseT) {
 			if after.dump() != cur.dump() {
 				sig := o.Kind + "/failed-statement-changed-table"
 				if i := findCol(cur.cols, o.Name); (o.Kind == "modify" || o.Kind == "modifyx") && i >= 0 && cur.cols[i].Kind == "enum" && o.Col.Kind == "enum" {
-					sig = "modify-enum/failed-redefinition-remapped-earlier-rows" // rows before the offending one were re-indexed in place
+					sig = "enum-failed-redefinition-remapped-earlier-rows" // rows before the offending one were re-indexed in place
 				}
 				fails = append(fails, fail{sig,
 					fmt.Sprintf("%q failed (%v) but the table changed: before %s, after %s", o.SQL, err, cur.dump(), after.dump())})
-				if strings.HasPrefix(sig, "modify-enum/") {
+				if sig == "enum-failed-redefinition-remapped-earlier-rows" {
 					// the model does not mirror this known defect (in-place re-indexing by a failing rewrite): the model
 					// comparison of this case ends before the step; the predicate reports it
 					enumDefect = true
@@ -723,9 +723,12 @@ func run(c *lib.Ctx, cs caseT) {
 							if !okc {
 								sig := "/succeeded-although-not-representable"
 								if before[i] != nil && strings.Trim(*before[i], " +-.") == "" {
-									sig = "/digitless-string-converted-to-number" // "", "-", "+", " ", "." become 0
+									sig = "digitless-string-converted-to-number" // "", "-", "+", " ", "." become 0
 								}
-								fails = append(fails, fail{o.Kind + sig,
+								if strings.HasPrefix(sig, "/") {
+									sig = o.Kind + sig
+								}
+								fails = append(fails, fail{sig,
 									fmt.Sprintf("%q succeeded although %s is not representable as %s", o.SQL, show(before[i]), nc.sqlDef())})
 								break
 							}
